@@ -36,6 +36,20 @@ def maps_for(rng, names, exhaustive):
         a, b = rng.sample(names, 2)
         out.append({a: b})                                         # onto an existing name: must be refused
     out.append({names[0]: rng.choice(["not valid", "1x", "", "a-b"])})   # not an identifier: must be refused
+    # arbitrary (possibly non-injective) functions, with identity entries and keys that are not demes
+    for _ in range(5):
+        k = rng.randint(1, n)
+        dom = rng.sample(names, k)
+        m = {x: rng.choice(names + FRESH[:2] + [x, x]) for x in dom}
+        if rng.random() < 0.3:
+            m["not_a_deme"] = rng.choice(names + ["N9"])
+        out.append(m)
+    if n >= 2:
+        a, b = rng.sample(names, 2)
+        out.append({b: b, a: b})                                   # identity entry + collision
+        out.append({a: b, b: b})
+        out.append({x: x.lower() for x in names})
+        out.append({x: "same" for x in names})
     for _ in range(4):
         k = rng.randint(1, n)
         dom = rng.sample(names, k)
@@ -80,7 +94,7 @@ def spec_check(g, names_map, h, before, after):
     for old in [d.name for d in g.demes] + FRESH:
         if old not in new_names and old in h:
             return ("rename:stale-name", "a name no longer used is still found")
-    inv = {v: k for k, v in names_map.items()}
+    inv = {v: k for k, v in names_map.items() if k in g}
     back = h.rename_demes(inv)
     if not (wire.deep_eq(gen.graph_payload(back), before[0])):
         return ("rename:not-invertible", "renaming back does not restore the graph")
